@@ -5,7 +5,9 @@
 
    The operating system is a transfer schedule: the k-th entry says what the k-th
    read()/write() call does.  [Short n]: the call transfers min(n, what was asked for /
-   what is left) bytes; [Err]: the call returns -1.  A finite schedule can run out before
+   what is left) bytes; [Err e]: the call returns -1 with errno = e (any value: EIO, EINTR,
+   EAGAIN, ENOSPC, ... — the C code never looks at it except to format the message, so no
+   errno is "not really an error": an interrupted read is not resumed).  A finite schedule can run out before
    the C function returns; that is reported as [...OutOfSchedule] (it is not a behaviour
    of the C code, it says "this schedule does not describe a complete run").
 
@@ -22,7 +24,7 @@
 From JC Require Import Base Value.
 Local Open Scope Z_scope.
 
-Inductive xfer := Short (n : Z) | Err.
+Inductive xfer := Short (n : Z) | Err (errno : Z).
 
 Definition JSON_FILE_BUF_SIZE : Z := 4096.
 Definition JSON_TOKENER_DEFAULT_DEPTH : Z := 32.
@@ -65,7 +67,7 @@ Fixpoint write_loop (sched : list xfer) (rest : list byte) (wsize wpos : Z)
   if wpos <? wsize then
     match sched with
     | [] => WOutOfSchedule dev calls
-    | Err :: _ => WRet (-1) true dev (calls + 1)
+    | Err _ :: _ => WRet (-1) true dev (calls + 1)
     | Short n :: sched' =>
         let ret := os_ret n (wsize - wpos) in
         if ret =? 0 then WSpin dev (calls + 1)
@@ -113,7 +115,7 @@ Fixpoint read_loop (app_ok : Z -> Z -> bool) (sched : list xfer) (rest : list by
                    (pb : list byte) (bpos : Z) (calls : Z) : rloop :=
   match sched with
   | [] => LOutOfSchedule pb calls
-  | Err :: _ => LErr pb (calls + 1)
+  | Err _ :: _ => LErr pb (calls + 1)
   | Short n :: sched' =>
       let chunk := zfirstn (Z.min n JSON_FILE_BUF_SIZE) rest in
       let ret := zlen chunk in
@@ -178,14 +180,14 @@ Definition object_from_file (open_ok : bool) parse app_ok (sched : list xfer) (d
 (* ------------------------------------------------------------------ schedules *)
 
 (* an error-free entry of at least one byte: the quantifier of the property *)
-Definition ge1 (x : xfer) : Prop := match x with Short n => 1 <= n | Err => False end.
+Definition ge1 (x : xfer) : Prop := match x with Short n => 1 <= n | Err _ => False end.
 
 (* bytes a write schedule offers to take; bytes a read schedule offers to give per call
    (a read never asks for more than the stack buffer holds) *)
 Fixpoint wsum (s : list xfer) : Z :=
-  match s with [] => 0 | Short n :: t => n + wsum t | Err :: t => wsum t end.
+  match s with [] => 0 | Short n :: t => n + wsum t | Err _ :: t => wsum t end.
 Fixpoint rsum (s : list xfer) : Z :=
-  match s with [] => 0 | Short n :: t => Z.min n JSON_FILE_BUF_SIZE + rsum t | Err :: t => rsum t end.
+  match s with [] => 0 | Short n :: t => Z.min n JSON_FILE_BUF_SIZE + rsum t | Err _ :: t => rsum t end.
 
 Definition is_prefix (p l : list byte) : Prop := exists q, l = p ++ q.
 Definition strict_prefix (p l : list byte) : Prop := exists q, q <> [] /\ l = p ++ q.
